@@ -363,4 +363,20 @@ theorem canonicalMarks_iff_canonP (S : Schema) (set : Marks) :
     have := foldl_add_of_canonP S set [] (by simpa using h)
     simp [this]
 
+theorem addToSet_idem (S : Schema) (m : Mark) (s : Marks) :
+    m.addToSet S (m.addToSet S s) = m.addToSet S s := by
+  rw [addToSet_eq S m s]
+  split
+  · rename_i hc
+    rw [addToSet_eq, if_pos hc]
+  · rw [addToSet_eq, if_pos]
+    rw [Bool.or_eq_true]
+    left
+    rw [List.any_eq_true]
+    exact ⟨m, (mem_insertByRank m m _).mpr (.inl rfl), by simp⟩
+
+theorem isInSet_iff (x : Mark) (s : Marks) : x.isInSet s = true ↔ x ∈ s := by
+  simp only [Mark.isInSet, List.any_eq_true, beq_iff_eq]
+  exact ⟨fun ⟨y, hy, e⟩ => e ▸ hy, fun h => ⟨x, h, rfl⟩⟩
+
 end PM
